@@ -35,7 +35,10 @@ def harness_list(pid, tier):
     if tier != "thorough":
         return mod.harnesses(tier)
     hs = list(mod.harnesses("quick"))
+    same = {(h.name, json.dumps(h.bounds, sort_keys=True, default=str)) for h in hs}
     for h in mod.harnesses("thorough"):
+        if (h.name, json.dumps(h.bounds, sort_keys=True, default=str)) in same:
+            continue                    # identical to a quick harness
         h.name = "deep/" + h.name
         hs.append(h)
     return hs
